@@ -251,6 +251,85 @@ impl X<'_> {
     out
   }
 
+  /// top-level namespaces (`namespace X { … }`, exported or not): the names their bodies export
+  pub fn namespaces(&self) -> std::collections::BTreeMap<String, BTreeSet<String>> {
+    let mut out = std::collections::BTreeMap::new();
+    let deno_ast::ProgramRef::Module(module) = self.src.program_ref() else { return out };
+    let mut do_ns = |m: &TsModuleDecl| {
+      let TsModuleName::Ident(id) = &m.id else { return };
+      let Some(TsNamespaceBody::TsModuleBlock(b)) = &m.body else { return };
+      let names: &mut BTreeSet<String> = out.entry(id.sym.to_string()).or_default();
+      for item in &b.body {
+        if let ModuleItem::ModuleDecl(ModuleDecl::ExportDecl(e)) = item {
+          match &e.decl {
+            Decl::Fn(f) => drop(names.insert(f.ident.sym.to_string())),
+            Decl::Var(v) => {
+              for d in &v.decls {
+                if let Pat::Ident(b) = &d.name {
+                  names.insert(b.id.sym.to_string());
+                }
+              }
+            }
+            Decl::Class(c) => drop(names.insert(c.ident.sym.to_string())),
+            Decl::TsInterface(i) => drop(names.insert(i.id.sym.to_string())),
+            Decl::TsTypeAlias(t) => drop(names.insert(t.id.sym.to_string())),
+            Decl::TsEnum(e) => drop(names.insert(e.id.sym.to_string())),
+            Decl::TsModule(m) => {
+              if let TsModuleName::Ident(i) = &m.id {
+                names.insert(i.sym.to_string());
+              }
+            }
+            Decl::Using(_) => {}
+          }
+        }
+      }
+    };
+    for item in &module.body {
+      match item {
+        ModuleItem::Stmt(Stmt::Decl(Decl::TsModule(m))) => do_ns(m),
+        ModuleItem::ModuleDecl(ModuleDecl::ExportDecl(e)) => {
+          if let Decl::TsModule(m) = &e.decl {
+            do_ns(m)
+          }
+        }
+        _ => {}
+      }
+    }
+    out
+  }
+
+  /// `export default X;` with `X` an identifier
+  pub fn default_export_ident(&self) -> Option<String> {
+    let deno_ast::ProgramRef::Module(module) = self.src.program_ref() else { return None };
+    module.body.iter().find_map(|item| match item {
+      ModuleItem::ModuleDecl(ModuleDecl::ExportDefaultExpr(e)) => match &*e.expr {
+        Expr::Ident(i) => Some(i.sym.to_string()),
+        _ => None,
+      },
+      _ => None,
+    })
+  }
+
+  /// `L.K` (and `L.K.…`, `typeof L.K`) in type positions: the leftmost identifier and the member after it
+  pub fn qualified_refs(&self) -> BTreeSet<(String, String)> {
+    use deno_ast::swc::ecma_visit::Visit;
+    use deno_ast::swc::ecma_visit::VisitWith;
+    struct V {
+      out: BTreeSet<(String, String)>,
+    }
+    impl Visit for V {
+      fn visit_ts_qualified_name(&mut self, n: &TsQualifiedName) {
+        if let TsEntityName::Ident(l) = &n.left {
+          self.out.insert((l.sym.to_string(), n.right.sym.to_string()));
+        }
+        n.visit_children_with(self);
+      }
+    }
+    let mut v = V { out: BTreeSet::new() };
+    self.src.program_ref().visit_with(&mut v);
+    v.out
+  }
+
   /// statements at the top level that are not declarations, imports or exports
   pub fn non_declaration_statements(&self) -> Vec<String> {
     let mut out = vec![];
